@@ -23,12 +23,13 @@ MODULES = {
     "C05": ["C05", "GenNumWcv", "GenNumWcvp"] + SMOOTH_GCV,
     "C06": ["C06core", "C06"] + SMOOTH_FIXED + SMOOTH_V[:3] + SMOOTH_GCV,
     "C07": ["C07", "GenNumBrent", "GenNumGammafit", "GenNumGammastd", "GenGlueSpi", "GenGlueCalIndices"] + SPI,
-    "C08": ["C08", "GenNumGammastd", "GenNumGammastdYxt", "SafeBrentq", "SafeGammafit", "SafeGammastd", "GenGlueSpi"] + SPI,
+    "C08": ["C08", "GenNumGammastd", "GenNumGammastdYxt", "SafeBrentq", "SafeGammafit", "SafeGammastd", "SafeGammastdGrp", "SafeGammastdYxt", "GenGlueSpi"] + SPI,
     "C09": ["C09", "GenNumGammastdGrp", "GenGlueCalIndices", "GenGlueSpi", "GenGlueLinspace", T + "GammastdGrp"],
     "C10": ["C10", "GenKMk", "GenNumMkScore", "GenNumMkVar", "GenNumMkZ", "GenNumMkP", "GenNumMkSens", "GenNumMkTrend"] + MK,
     "C11": ["C11"], "C12": ["C12", "GenNumOptvplcTyx", T + "Ws2doptvplcTyx"], "C13": ["C13"] + ALL_TYPES,
     "C14": ["C14", "SafeRollingSum", "SafeLroo", "SafeMeanGrp", "SafeDoMean", "SafeAutocorrSums", "SafeMkScoreCounts",
-            "SafeWs2d", "SafeTinterpolate", "SafeWs2doptv"],
+            "SafeWs2d", "SafeTinterpolate", "SafeWs2doptv", "SafeWs2dgu", "SafeWs2dpgu", "SafeWs2doptvpCore", "SafeWs2doptvp", "SafeWs2doptvplc",
+            "SafeMkSens", "SafeMkVariance", "SafeGammastdGrp", "SafeGammastdYxt", "SafeWs2dwcv", "SafeWs2dwcvp"],
     "C15": ["C15", "GenKAC", "GenNumACFloat", "GenNumACInt", "GenNumAC1d", T + "Autocorr", T + "AutocorrTyx"],
     "C16": ["C16", "GenKDoMean", "GenKDoMeanB", T + "DoMean"],
     "C17": ["C17", "C17round", "C17float", "GenKRS", "GenKRSround", "GenKMeanGrp", "GenKMeanGrpB", "GenGlueMeanGrp", T + "MeanGrp", T + "RollingSum"],
